@@ -33,9 +33,27 @@ func (ex *Exec) finalChecks() {
 			ex.res.Violate("C06", "stuck-state/"+st.String(), "node %s (id %d) is in state %s after quiescence (history %v)", h.Name, h.ID, st, h.Node.VerifHistory())
 		}
 	}
+	if ex.p.Prop == "C07" {
+		ex.checkC07(members)
+		return
+	}
+	if ex.p.Prop == "C08" {
+		// ungraceful crashes are outside the premise of the pointer/ownership oracles
+		if ex.c.Net.HandlerPanics > 0 {
+			ex.res.Violate("C08", "handler-panic", "%d RPC handler(s) panicked (recovered by the HTTP middleware)", ex.c.Net.HandlerPanics)
+		}
+		return
+	}
 	ex.checkPointers(members)
 	ex.checkLookups(members)
 	ex.checkWindows()
+	if ex.p.Prop == "C10" {
+		ex.checkListing(members)
+		return
+	}
+	if ex.p.Prop == "C19" {
+		return
+	}
 	if len(ex.p.Clients) > 0 {
 		ex.finalReads(members)
 		ex.checkOwnership(members)
@@ -359,4 +377,212 @@ func (ex *Exec) violate(prop, class, format string, a ...any) {
 		class = ex.root
 	}
 	ex.res.Violate(prop, class, format, a...)
+}
+
+// C07: after the faulted change has given up or completed and the ring is
+// quiet, every key acknowledged before the change is still reachable and every
+// remaining node is back to serving.
+func (ex *Exec) checkC07(members []*NodeH) {
+	cell := ex.p.Cell
+	fired := false
+	for _, n := range ex.p.Nodes {
+		for _, o := range n.Ops {
+			if o.Fault != nil && o.Fault.Fired {
+				fired = true
+			}
+		}
+	}
+	if fired {
+		simrt.Probe("cell-fault-fired")
+	}
+	for _, h := range ex.c.Slots {
+		if h == nil || h.Crashed || h.Left || !h.Joined {
+			continue
+		}
+		if st := h.Node.VerifState(); st != spec.Active {
+			ex.res.Violate("C07", cell+"/node-stuck-"+st.String(), "after the faulted %s quiesced, node %s (id %d) is still in state %s (history %v)", cell, h.Name, h.ID, st, h.Node.VerifHistory())
+		}
+	}
+	if len(members) == 0 {
+		return
+	}
+	lost := 0
+	for k, want := range ex.acked {
+		found := false
+		var lastErr error
+		for _, m := range members {
+			ctx := harnessCtx()
+			if strings.HasPrefix(k, "v:") {
+				b, err := m.Node.Get(ctx, []byte(k[2:]))
+				if err == nil && string(b) == want {
+					found = true
+					break
+				}
+				lastErr = err
+			} else {
+				kc := k[2:]
+				i := strings.LastIndexByte(kc, '/')
+				ok, err := m.Node.PrefixContains(ctx, []byte(kc[:i]), []byte(kc[i+1:]))
+				if err == nil && ok {
+					found = true
+					break
+				}
+				lastErr = err
+			}
+		}
+		if !found {
+			lost++
+			if lost == 1 {
+				ex.res.Violate("C07", cell+"/acked-data-unreachable", "after the faulted %s quiesced, %s acknowledged before the change is not reachable from any of the %d remaining members (last error: %v)", cell, k, len(members), lastErr)
+			}
+		}
+	}
+	simrt.Probe("c07-checked")
+}
+
+// C10: ring-wide listing by prefix from every member equals the model.
+func (ex *Exec) checkListing(members []*NodeH) {
+	if !ex.quiesced {
+		return
+	}
+	type st struct {
+		val      string
+		children map[string]bool
+		lease    bool
+	}
+	model := map[string]*st{}
+	get := func(k string) *st {
+		if model[k] == nil {
+			model[k] = &st{children: map[string]bool{}}
+		}
+		return model[k]
+	}
+	ex.mu.Lock()
+	hist := append([]*OpRec(nil), ex.hist...)
+	ex.mu.Unlock()
+	for _, r := range hist {
+		if r.Class != "ok" {
+			if r.Class == "retryable" || r.Class == "other" {
+				ex.res.Premise = true // an operation's outcome is unknown: the model is not exact
+				return
+			}
+			continue
+		}
+		m := get(r.Key)
+		switch r.Kind {
+		case "put":
+			m.val = r.Arg
+		case "del":
+			m.val = ""
+		case "pappend":
+			m.children[r.Arg] = true
+		case "premove":
+			delete(m.children, r.Arg)
+		case "acquire":
+			m.lease = true
+		case "release":
+			m.lease = false
+		}
+	}
+	for _, prefix := range []string{"", "k", "k/", "k/a", "k/a/", "j", "zz", "zz/top", "nope"} {
+		want := map[string]int{}
+		for k, m := range model {
+			if !strings.HasPrefix(k, prefix) {
+				continue
+			}
+			if m.val != "" {
+				want["SIMPLE "+k]++
+			}
+			if len(m.children) > 0 {
+				want["PREFIX "+k]++
+			}
+			if m.lease {
+				want["LEASE "+k]++
+			}
+		}
+		for _, h := range members {
+			got := map[string]int{}
+			keys, err := h.Node.ListKeys(harnessCtx(), []byte(prefix))
+			if err != nil {
+				ex.violate("C10", "listing-error", "ListKeys(%q) at node %d on a stable ring failed: %v", prefix, h.ID, err)
+				return
+			}
+			for _, k := range keys {
+				got[k.GetType().String()+" "+string(k.GetKey())]++
+			}
+			if fmt.Sprint(want) != fmt.Sprint(got) {
+				ex.violate("C10", "listing-mismatch", "ListKeys(%q) at node %d returned %v, stored %v", prefix, h.ID, got, want)
+				return
+			}
+		}
+	}
+	simrt.Probe("listing-checked")
+}
+
+// C19 through the DHT: exclusivity and token discipline, judged only on
+// certain facts: a holder certainly holds the lease from the return of its
+// grant until the earlier of (invoke + ttl truncated to seconds) and the
+// invocation of its own release.
+func (ex *Exec) checkLeases() {
+	type grant struct {
+		client       int
+		key          string
+		from, until  time.Duration
+		rec          *OpRec
+	}
+	hist := append([]*OpRec(nil), ex.hist...)
+	sort.SliceStable(hist, func(i, j int) bool { return hist[i].Call < hist[j].Call })
+	var grants []*grant
+	open := map[string]*grant{}
+	for _, r := range hist {
+		ck := fmt.Sprintf("%d/%s", r.Client, r.Key)
+		switch r.Kind {
+		case "acquire", "renew":
+			if r.Kind == "acquire" && r.TTL < time.Second {
+				if r.Class == "ok" {
+					ex.res.Violate("C19", "short-ttl-accepted", "Acquire(%s, ttl=%v) via %s succeeded; TTLs below one second must be rejected", r.Key, r.TTL, r.Entry)
+				} else if r.Class != "retryable" && !strings.Contains(r.Err, "ttl") {
+					ex.res.Violate("C19", "short-ttl-wrong-error", "Acquire(%s, ttl=%v) via %s failed with %q instead of the invalid-TTL error", r.Key, r.TTL, r.Entry, r.Err)
+				}
+			}
+			if r.Class != "ok" {
+				continue
+			}
+			g := &grant{client: r.Client, key: r.Key, from: r.T1, until: r.T0 + r.TTL.Truncate(time.Second), rec: r}
+			if r.Kind == "renew" {
+				if o := open[ck]; o != nil && o.until > r.T0 {
+					o.until = r.T0 // superseded by the renewal from its invocation on
+				}
+			}
+			grants = append(grants, g)
+			open[ck] = g
+		case "release":
+			if o := open[ck]; o != nil && o.until > r.T0 {
+				o.until = r.T0
+			}
+			if r.Class == "ok" {
+				delete(open, ck)
+			}
+		case "renew-stale", "release-stale":
+			if r.Class == "ok" && r.TokIn == 12345 {
+				ex.res.Violate("C19", "forged-token-honoured", "%s(%s) with a forged token via %s succeeded", r.Kind, r.Key, r.Entry)
+			}
+		}
+	}
+	for _, a := range grants {
+		if a.rec.Kind != "acquire" {
+			continue
+		}
+		for _, b := range grants {
+			if b == a || b.key != a.key || b.client == a.client {
+				continue
+			}
+			// a was acquired entirely inside b's certain holding interval
+			if a.rec.T0 > b.from && a.rec.T1 < b.until {
+				ex.res.Violate("C19", "lease-granted-twice", "lease %s: client %d acquired it during [%v,%v] although client %d certainly held it during [%v,%v) (granted by %s at [%v,%v], ttl %v)",
+					a.key, a.client, a.rec.T0, a.rec.T1, b.client, b.from, b.until, b.rec.Kind, b.rec.T0, b.rec.T1, b.rec.TTL)
+				simrt.Probe("lease-overlap")
+			}
+		}
+	}
 }
